@@ -150,3 +150,82 @@ def InitW (w : Worker) : Prop :=
 instance : DecidablePred InitW := fun w => by unfold InitW; infer_instance
 
 end Mhd.Stop
+
+/-!
+  ## thread-per-connection mode: close_all_connections with per-connection threads
+
+  Every connection has its own thread.  When the daemon is stopped, each connection thread
+  leaves its loop (`while (! daemon->shutdown …)`), closes its connection (one termination
+  notification) and — through MHD_connection_handle_idle → cleanup_connection — moves it to the
+  cleanup list; the daemon thread processes the pending resumes, joins every connection thread
+  and then runs `while (NULL != (pos = daemon->connections_tail)) close_connection (pos);`, which
+  in this mode only *marks* the connection closed.
+
+  A connection that the application has resumed (MHD_resume_connection called, as the API
+  requires before MHD_stop_daemon) but whose resume the daemon thread has not processed yet is
+  still in the suspended list (`Place.susp`).  The only scheduling freedom that matters is whether
+  a connection's thread observes the shutdown *before* (`early = true`) or after the daemon
+  thread's `resume_suspended_connections` — both run their list manipulation under
+  cleanup_connection_mutex, so they are atomic with respect to each other.
+
+  Assumption of this part: every connection thread does observe the shutdown flag eventually.
+  In the repaired code (fix F18c) the wait of a suspended connection's thread on the shared
+  inter-thread channel is bounded (250 ms) and the thread no longer consumes the signal, so a
+  lost wake-up only delays it; before that fix a thread could sleep forever (second way for
+  MHD_stop_daemon to block, observed by the stress harness in the "quiet" scenario).
+
+  `fixed = false` is the code before fix F18a: MHD_connection_handle_idle does nothing for a
+  connection that is still marked suspended, the thread exits and nobody moves the connection
+  to the cleanup list.  `fixed = true` is the repaired thread exit path (the thread takes a
+  resumed connection back from the suspended list itself).
+-/
+namespace Mhd.StopTpc
+
+inductive Place where
+  | conn | susp | cleanup | freed
+  deriving DecidableEq, Repr
+
+structure TC where
+  place : Place
+  notified : Nat
+  exited : Bool
+  deriving DecidableEq, Repr
+
+def threadExit (fixed : Bool) (c : TC) : TC :=
+  match c.place with
+  | .susp =>
+    if fixed then ⟨.cleanup, c.notified + 1, true⟩
+    else ⟨.susp, c.notified + 1, true⟩
+  | .conn => ⟨.cleanup, c.notified + 1, true⟩
+  | _ => { c with exited := true }
+
+def daemonResume (c : TC) : TC :=
+  match c.place with
+  | .susp => { c with place := .conn }
+  | _ => c
+
+def freeC (c : TC) : TC :=
+  match c.place with
+  | .cleanup => { c with place := .freed }
+  | _ => c
+
+def phase1 (fixed : Bool) (p : TC × Bool) : TC := if p.2 then threadExit fixed p.1 else p.1
+def phase3 (fixed : Bool) (p : TC × Bool) : TC := if p.2 then p.1 else threadExit fixed p.1
+
+/-- state of every connection when the daemon thread reaches its final loop: the early threads
+    have run, the daemon has processed the pending resumes, the late threads have run and all
+    threads have been joined -/
+def settle (fixed : Bool) (cs : List (TC × Bool)) : List TC :=
+  cs.map (fun p => phase3 fixed (daemonResume (phase1 fixed p), p.2))
+
+/-- `none` = the final loop `while (NULL != (pos = daemon->connections_tail)) close_connection (pos);`
+    never ends: in this mode close_connection() only marks the connection closed -/
+def stopTpc (fixed : Bool) (cs : List (TC × Bool)) : Option (List TC) :=
+  if (settle fixed cs).all (fun c => c.place != .conn) then some ((settle fixed cs).map freeC) else none
+
+def InitC (c : TC) : Prop := (c.place = .conn ∨ c.place = .susp) ∧ c.notified = 0 ∧ c.exited = false
+
+
+instance : DecidablePred InitC := fun c => by unfold InitC; infer_instance
+
+end Mhd.StopTpc
